@@ -253,9 +253,14 @@ func (x *Exec) libCall(s *State, site ssa.Instruction, fn *ssa.Function, name st
 			after := Substr(str, Add(idx, StrLen(sep)), Sub(StrLen(str), Add(idx, StrLen(sep))))
 			s.assume(Implies(And(sepNonEmpty, StrContains(str, sep), Not(StrContains(after, sep))), And(Eq(res.Len, Int(2)), Eq(Select(arr, Int(1)), after))))
 		}
-		if sep.Op == "str" && sep.Str == " " && name == "strings.Split" {
-			// Join(Split(s, " "), " ") == s
-			s.assume(Eq(x.joinSpTerm(s, res, 3), str))
+		if sep.Op == "str" && sep.Str != "" && name == "strings.Split" {
+			// Join(Split(s, sep), sep) == s: asserted here for the blank, and for
+			// any other separator when the parts are joined again (strings.Join)
+			if sep.Str == " " {
+				s.assume(Eq(x.joinSepTerm(s, res, sep.Str, 3), str))
+			} else {
+				res.Obj.splitOf, res.Obj.splitSep, res.Obj.splitLen = str, sep.Str, res.Len
+			}
 		}
 		k(s, res)
 		return true
@@ -272,8 +277,12 @@ func (x *Exec) libCall(s *State, site ssa.Instruction, fn *ssa.Function, name st
 		sv, _ := args[0].(*SliceV)
 		sep := T(1)
 		r := x.freshStr(s, site, "join")
-		if sv != nil && sep.Op == "str" && sep.Str == " " {
-			s.assume(Eq(r, x.joinSpTerm(s, sv, 3)))
+		if sv != nil && sep.Op == "str" && sep.Str != "" {
+			s.assume(Eq(r, x.joinSepTerm(s, sv, sep.Str, 3)))
+			if o := sv.Obj; o != nil && o.splitOf != nil && o.splitSep == sep.Str {
+				whole := &SliceV{Nil: TFalse, Obj: o, Off: Int(0), Len: o.splitLen, Cap: o.splitLen, Elem: sv.Elem}
+				s.assume(Eq(x.joinSepTerm(s, whole, sep.Str, 3), o.splitOf))
+			}
 		}
 		if sv != nil {
 			if sv.Obj != nil {
@@ -770,6 +779,13 @@ func (x *Exec) libInvoke(s *State, site ssa.Instruction, full string, recv Val, 
 			id = iv.Opaque
 		}
 		return &IfaceV{Nil: TFalse, Opaque: UF("uf_conn_remoteaddr", SInt, id)}, true
+	case "fs.FileInfo.Mode", "os.FileInfo.Mode":
+		x.used(full + ": the mode recorded by Lstat / Stat (uf_fileinfo_mode)")
+		iv, _ := recv.(*IfaceV)
+		if iv != nil && iv.Opaque != nil {
+			return UF("uf_fileinfo_mode", SInt, iv.Opaque), true
+		}
+		return x.freshInt(s, site, "mode"), true
 	case "fs.FileInfo.Size", "os.FileInfo.Size":
 		x.used(full + ": size recorded by Stat (uf_fileinfo_size)")
 		iv, _ := recv.(*IfaceV)
